@@ -199,3 +199,104 @@ def _assoc_before_name(src: str) -> str:
 
 FUNC_MUTANTS['fixrev_unnamed_order'] = (M, _assoc_before_name)
 MUTANTS.append(('fixrev_unnamed_order', ['C05'], M, None, None, 'revert 956c35c'))
+
+# ---- attack graph: reverts of fixes ---------------------------------------
+MUTANTS += [
+    ('fixrev_addnode_id_check', ['C09'], AG,
+     """        new_id = node_id if node_id is not None else self.next_node_id
+        if new_id in self._id_to_node:""",
+     """        new_id = node_id if node_id is not None else self.next_node_id
+        if node.id in self._id_to_node:""", 'revert 8bd6494'),
+    ('fixrev_regenerate_indexes', ['C09'], AG,
+     """        self._id_to_node = {}
+        self._full_name_to_node = {}
+        self._id_to_attacker = {}
+        self.next_node_id = 0
+        self.next_attacker_id = 0
+        self._generate_graph()""",
+     """        self._generate_graph()""", 'revert 9f2cae9'),
+    ('fixrev_regenerate_name_index_only', ['C09'], AG,
+     """        self._full_name_to_node = {}
+        self._id_to_attacker = {}""",
+     """        self._id_to_attacker = {}""", 'partial revert 9f2cae9: only the full-name index keeps stale entries'),
+    ('fixrev_remove_node_attackers', ['C09', 'C13'], AG,
+     """        for attacker in list(node.compromised_by):
+            attacker.undo_compromise(node)
+""", "", 'revert 42b31a0 (reached side)'),
+    ('fixrev_remove_node_entry_points', ['C09'], AG,
+     """        for attacker in self.attackers:
+            attacker.entry_points = [entry_point
+                for entry_point in attacker.entry_points
+                if entry_point is not node]
+""", "", 'revert 42b31a0 (entry-point side)'),
+    ('fixrev_attacker_id0', ['C09'], AG,
+     """        attacker.id = attacker_id if attacker_id is not None \\
+            else self.next_attacker_id""",
+     """        attacker.id = attacker_id or self.next_attacker_id""", 'revert 3cdce99'),
+    ('fixrev_remove_attacker_iter', ['C11'], AG,
+     "        for node in list(attacker.reached_attack_steps):\n            attacker.undo_compromise(node)",
+     "        for node in attacker.reached_attack_steps:\n            attacker.undo_compromise(node)",
+     'revert 47e1b38'),
+    ('fixrev_prune_iter', ['C13'], AP,
+     "    for node in list(graph.nodes):\n        if (node.type == 'or' or node.type == 'and') and \\",
+     "    for node in graph.nodes:\n        if (node.type == 'or' or node.type == 'and') and \\",
+     'revert b1a693d'),
+    ('fixrev_ttc_shared', ['C14'], ND,
+     "            copy.deepcopy(self.ttc, memo),", "            self.ttc,", 'revert f48a8de'),
+    ('fixrev_tags_str', ['C10'], ND,
+     "            node_dict['tags'] = list(self.tags)", "            node_dict['tags'] = str(self.tags)",
+     'revert 5490cd8'),
+    ('fixrev_attackers_by_name', ['C10'], AG,
+     "            serialized_attackers[attacker.id] = attacker.to_dict()",
+     "            serialized_attackers[attacker.name] = attacker.to_dict()", 'revert 3bbceb8'),
+    # ---- further attack-graph mutants --------------------------------------
+    ('ag_remove_node_keeps_name_index', ['C09'], AG,
+     "        del self._full_name_to_node[node.full_name]\n", "",
+     'remove_node forgets the full-name index'),
+    ('ag_deepcopy_shallow_id_index', ['C14', 'C09'], AG,
+     """        copied_attackgraph._id_to_node = \\
+            copy.deepcopy(self._id_to_node, memo)""",
+     """        copied_attackgraph._id_to_node = \\
+            dict(self._id_to_node)""", 'the copy looks nodes up in the original'),
+    ('ag_deepcopy_compromised_by_lost', ['C14', 'C11'], AG,
+     """            if node.compromised_by:
+                memo[id(node)].compromised_by = copy.deepcopy(
+                    node.compromised_by, memo)""",
+     """            if len(node.compromised_by) == 1:
+                memo[id(node)].compromised_by = copy.deepcopy(
+                    node.compromised_by, memo)""",
+     'nodes compromised by two attackers lose compromised_by in the copy'),
+    ('attacker_undo_one_sided', ['C11'], AT,
+     """        node.compromised_by.remove(self)
+        self.reached_attack_steps.remove(node)""",
+     """        node.compromised_by.remove(self)
+        if len(self.reached_attack_steps) > 1:
+            self.reached_attack_steps.remove(node)""",
+     'undoing the last compromise leaves the attacker side'),
+    ('query_surface_no_dedupe', ['C12'], QY,
+     """            if is_traversable and child not in attack_surface:""",
+     """            if is_traversable:""", 'update_attack_surface_add_nodes skips the duplicate test'),
+    ('query_and_ignores_necessity', ['C12'], QY,
+     """                if parent.is_necessary and \\
+                    not parent.is_compromised_by(attacker):""",
+     """                if not parent.is_compromised_by(attacker):""",
+     'unnecessary parents also have to be compromised'),
+    ('query_enabled_defense_ignores_suppress', ['C12'], ND,
+     """        return self.type == 'defense' and \\
+            'suppress' not in self.tags and \\
+            self.defense_status == 1.0""",
+     """        return self.type == 'defense' and \\
+            self.defense_status == 1.0""", 'suppressed defenses are reported as enabled'),
+    ('load_drops_parent_links_of_last', ['C10'], AG,
+     """                for parent_id in node_dict['parents']:
+                    parent = attack_graph.get_node_by_id(int(parent_id))""",
+     """                for parent_id in list(node_dict['parents'])[:3]:
+                    parent = attack_graph.get_node_by_id(int(parent_id))""",
+     'only the first three parents of a node are restored'),
+]
+
+EQUIVALENT.append(('load_existence_status_inverted_default', ['C10'], AG,
+     """            ag_node.is_necessary = node_dict['is_necessary'] == 'True' if \\
+                'is_necessary' in node_dict else True""",
+     """            ag_node.is_necessary = node_dict['is_necessary'] != 'False' if \\
+                'is_viable' in node_dict else True""", 'benign-looking rewrite; equivalent'))
